@@ -38,6 +38,7 @@ class FunctionReport:
         self.notes = []
         self.covers = {}
         self.dead_antecedents = []
+        self.dead_alternatives = []
 
     def to_json(self):
         return {
@@ -46,7 +47,7 @@ class FunctionReport:
             "obligations": [o.to_json() for o in self.obligations], "inlined": sorted(self.inlined),
             "abstracted": sorted(self.abstracted), "extern_used": sorted(self.extern_used), "wall_s": round(self.wall_s, 3),
             "solver_s": round(self.solver_s, 3), "bounded_labels": sorted(self.bounded_labels), "trusted": self.trusted,
-            "notes": self.notes, "implications_covered": sum(1 for v in self.covers.values() if v), "dead_antecedents": self.dead_antecedents,
+            "notes": self.notes, "implications_covered": sum(1 for v in self.covers.values() if v), "dead_antecedents": self.dead_antecedents, "dead_alternatives": self.dead_alternatives,
         }
 
 
@@ -213,7 +214,14 @@ def verify_contract(reg: Registry, c: Contract, cfg: Config) -> FunctionReport:
             rep.bounded_labels.add("bounded input " + b)
         for key, reach in p.covers.items():
             rep.covers[key] = rep.covers.get(key, False) or reach
-    rep.dead_antecedents = sorted(f"{k[0]}: implies({k[1]}, ...)" for k, reach in rep.covers.items() if not reach)
+    done_labels = set()
+    all_labels = set()
+    for p in paths:
+        all_labels |= set(p.labels)
+        if getattr(p, "completed", False) or getattr(p, "completed_by_cut", False):
+            done_labels |= set(p.labels)
+    rep.dead_alternatives = sorted(all_labels - done_labels)
+    rep.dead_antecedents = sorted((f"{k[0]}: {k[1]} is empty on every path" if k[1].startswith("for ") else f"{k[0]}: implies({k[1]}, ...)") for k, reach in rep.covers.items() if not reach)
     if rep.completed_paths == 0:
         rep.status = "error"
         rep.reason = "vacuity guard: no path reached the end of the function (contradictory requires?)"
